@@ -638,11 +638,15 @@ func (self *Node) removeMetadata() {
 }
 
 func (self *Node) getFork(index string) *Fork {
+	l := len(self.call.GetFqid()) + 5
 	i, err := strconv.Atoi(index)
 	if err == nil && i >= 0 && i < len(self.forks) {
-		return self.forks[i]
+		// Usually the forks are in the order of their numbers, but forks
+		// added while the pipestance runs are appended.
+		if f := self.forks[i]; len(f.fqname) > l && f.fqname[l:] == index {
+			return f
+		}
 	}
-	l := len(self.call.GetFqid()) + 5
 	for _, f := range self.forks {
 		if len(f.fqname) > l && f.fqname[l:] == index {
 			return f
